@@ -1,5 +1,5 @@
 (* Property C01 - theorem list (statements only; proofs live in the *Proofs.v files). *)
-From Coq Require Import NArith ZArith List.
+From Coq Require Import NArith ZArith List Lia.
 From ZV.Codec Require Import Bytes Fse Block TablesProofs.
 Import ListNotations.
 Local Open Scope N_scope.
@@ -17,3 +17,61 @@ Theorem C01_gen_tables_match_spec :
   ZV.Gen.Gen_Tables.ML_base = spec_ML_base /\ ZV.Gen.Gen_Tables.ML_bits = spec_ML_bits.
 Proof. pose proof gen_tables_match_spec as H. tauto. Qed.
 Print Assumptions C01_gen_tables_match_spec.
+
+(* ---- round trip of the serialiser side A (coq/Codec/Encode.v: ZSTD_writeFrameHeader, block framing,
+        ZSTD_noCompressBlock, ZSTD_rleCompressBlock, ZSTD_writeEpilogue) through the reference decoder ---- *)
+From ZV.Codec Require Import XXH64 Huf Frame Encode EncodeProofs.
+
+(* every frame header the writer can produce parses back to the fields it was built from, for every window log,
+   flag combination, dictionary ID and content size, whatever bytes follow *)
+Theorem C01_frame_header_round_trip : forall p pledged dictID rest,
+  params_ok p pledged dictID ->
+  exists fh, parse_fheader (fp_magicless p) (enc_fheader p pledged dictID ++ rest) = Ok (fh, rest) /\ fh_expected p pledged dictID fh.
+Proof. exact parse_enc_fheader. Qed.
+Print Assumptions C01_frame_header_round_trip.
+
+(* a frame assembled from ANY non-empty list of blocks decodes to the concatenated block contents and leaves the
+   trailing input untouched, provided each block means its content to the decoder state (blocks_spec / ext) *)
+Theorem C01_frame_assembly_round_trip : forall cfg d p dictID bs rest e' x',
+  params_ok p (lenN (blocks_content bs)) dictID ->
+  bs <> [] ->
+  c_magicless cfg = fp_magicless p ->
+  frame_window p (lenN (blocks_content bs)) <= c_window_max cfg ->
+  dict_ok d p dictID ->
+  blocks_spec (c_strict_window cfg) (frame_window p (lenN (blocks_content bs)))
+              (N.min (N.min (frame_window p (lenN (blocks_content bs))) BLOCK_MAX) (c_block_max cfg))
+              (dict_entropy d) (x_init d) bs = Ok (e', x') ->
+  ext (x_init d) x' (blocks_content bs) ->
+  exists t, decode_frame cfg d (enc_frame p dictID bs ++ rest) = Ok (blocks_content bs, t, rest).
+Proof. exact decode_enc_frame. Qed.
+Print Assumptions C01_frame_assembly_round_trip.
+
+(* raw and RLE blocks always mean their content: unconditional round trip for every such block list *)
+Theorem C01_raw_rle_frames_round_trip : forall cfg d p dictID bs rest,
+  params_ok p (lenN (blocks_content bs)) dictID ->
+  bs <> [] -> forallb simple_block bs = true ->
+  Forall (block_fits (N.min (N.min (frame_window p (lenN (blocks_content bs))) BLOCK_MAX) (c_block_max cfg))) bs ->
+  c_magicless cfg = fp_magicless p ->
+  frame_window p (lenN (blocks_content bs)) <= c_window_max cfg ->
+  dict_ok d p dictID ->
+  exists t, decode_frame cfg d (enc_frame p dictID bs ++ rest) = Ok (blocks_content bs, t, rest).
+Proof. exact decode_enc_frame_simple. Qed.
+Print Assumptions C01_raw_rle_frames_round_trip.
+
+(* the store-only compressor (what the library emits for incompressible input) is lossless for EVERY input,
+   every block size, every frame parameter vector, with or without a dictionary attached *)
+Theorem C01_store_compressor_lossless : forall cfg d p dictID bsize src rest,
+  params_ok p (lenN src) dictID ->
+  1 <= bsize -> bsize <= pow2 (fp_windowLog p) -> bsize <= BLOCK_MAX -> bsize <= c_block_max cfg ->
+  c_magicless cfg = fp_magicless p ->
+  frame_window p (lenN src) <= c_window_max cfg ->
+  dict_ok d p dictID ->
+  exists t, decode_frame cfg d (enc_store p dictID bsize src ++ rest) = Ok (src, t, rest).
+Proof. exact decode_enc_store. Qed.
+Print Assumptions C01_store_compressor_lossless.
+
+(* non-vacuity: a concrete parameter vector and input meet the hypotheses, and the frame is the expected bytes *)
+Example C01_store_example :
+  let p := {| fp_windowLog := 19; fp_contentSize := true; fp_checksum := false; fp_noDictID := false; fp_magicless := false |} in
+  params_ok p 3 0 /\ enc_store p 0 131072 [1; 2; 3] = [40; 181; 47; 253; 32; 3; 25; 0; 0; 1; 2; 3].
+Proof. split; [unfold params_ok; cbn; lia|vm_compute; reflexivity]. Qed.
